@@ -379,6 +379,10 @@ static void op_dt(int argc, char** argv)
 
 static void handle(int argc, char** argv)
 {
+	static int init = 0;
+	/* line-buffered output: when an op aborts (sanitizer), every earlier line is complete in the pipe,
+	   so the crash is attributed to the right op */
+	if (!init) { setvbuf(stdout, 0, _IOLBF, 1 << 16); init = 1; }
 	if (argc < 1) { printf("bad-op"); return; }
 	if (handle_belt(argc, argv)) return;
 	if (!strcmp(argv[0], "bashf")) op_bashf(argc, argv);
